@@ -8,7 +8,7 @@ from .. import b2check, core, gen
 
 
 def jobs(rng, thorough):
-    n = 6000 if thorough else 400
+    n = 30000 if thorough else 400
     out = []
     for _ in range(n):
         out.append((gen.conn_log(rng), rng.randrange(10 ** 9), 0))
@@ -19,7 +19,7 @@ def jobs_preempt(rng, thorough):
     """second pass with line-level preemption: a preemption may fall between taking a log entry's time stamp (the shim-level `clock`
     observation the acceptor uses to order log appends) and the append itself, so here the acceptor ignores the log (size 0, clock hidden)
     and the snapshots are judged by the monitor alone"""
-    n = 2000 if thorough else 150
+    n = 10000 if thorough else 150
     return [(dict(gen.conn_log(rng)), rng.randrange(10 ** 9), rng.choice([3, 6])) for _ in range(n)]
 
 
